@@ -27,3 +27,7 @@ for d in otlptrace/otlptracehttp otlptrace/otlptracegrpc otlpmetric/otlpmetricht
   dst=contracts/go.opentelemetry.io/otel/exporters/otlp/$d/internal/envconfig
   mkdir -p $dst && cp templates/envconfig.contract $dst/verif_contracts.go
 done
+for d in otlpmetric/otlpmetrichttp otlpmetric/otlpmetricgrpc; do
+  dst=contracts/go.opentelemetry.io/otel/exporters/otlp/$d/internal/transform
+  mkdir -p $dst && cp templates/metrictransform.contract $dst/verif_contracts.go
+done
